@@ -571,6 +571,22 @@ pub fn check_case(tape: &[u16], rc: &mut RCase) -> Result<(), Failure> {
 }
 
 /// valid programs (no mutation): accepted => lowered
+/// debugging aid: print the mutated program a tape denotes
+pub fn show(tape: &[u16]) {
+    let mut t = Tape::new(tape);
+    let mut feat = Feat::core();
+    feat.withdrawals = true;
+    feat.donation = true;
+    feat.witnesses = true;
+    let case = Gen::new(&mut t, feat).generate();
+    let kind = t.pick(MUTATIONS.len());
+    println!("// mutation: {}", MUTATIONS[kind]);
+    match mutate(&case, kind, &mut t) {
+        Some(prog) => println!("{}", print_plain(&prog)),
+        None => println!("// not applicable"),
+    }
+}
+
 pub fn check_valid(tape: &[u16], rc: &mut RCase) -> Result<(), Failure> {
     let mut t = Tape::new(tape);
     let mut feat = Feat::core();
